@@ -98,12 +98,12 @@ func famTruncation(x *lc) {
 		case r.Fatal != "" || r.Panic != "":
 			x.failResult("truncation", r, what)
 		case r.Err == "":
-			x.c.Fail(sig("truncation", x.e.name+"."+d.method, "silent-success"), "%s [%s]: %s returned no error", x.e.name, x.e.vals[x.vi].label, what)
+			x.c.Fail(sig("truncation", declName(x.o.obj, d.method), "silent-success"), "%s [%s]: %s returned no error", x.e.name, x.e.vals[x.vi].label, what)
 		default:
 			errs++
 		}
 		if r.Alloc > allocLimit(len(ref)) {
-			x.c.Fail(sig("truncation", x.e.name+"."+d.method, "unbounded-alloc"), "%s: %s allocated %d bytes", x.e.name, what, r.Alloc)
+			x.c.Fail(sig("truncation", declName(x.o.obj, d.method), "unbounded-alloc"), "%s: %s allocated %d bytes", x.e.name, what, r.Alloc)
 		}
 	}
 	x.c.Count(hi - lo)
@@ -357,7 +357,7 @@ func famCorruption(x *lc) {
 		hi = len(fs)
 	}
 	dz := x.dangers(d, ref)
-	subj := x.e.name + "." + d.method
+	subj := declName(x.o.obj, d.method)
 	rejected, accepted, skipped := 0, 0, 0
 	var jobs []job
 	var whats []string
@@ -471,7 +471,7 @@ func famWriterFailure(x *lc) {
 		case o.panicked != nil:
 			x.failPanic("writer-failure", o, what)
 		case o.err == nil:
-			x.c.Fail(sig("writer-failure", x.e.name+".WriteTo", "silent-success:"+failingWriters[wk]), "%s [%s]: %s returned no error", x.e.name, x.e.vals[x.vi].label, what)
+			x.c.Fail(sig("writer-failure", declName(x.o.obj, "WriteTo"), "silent-success:"+failingWriters[wk]), "%s [%s]: %s returned no error", x.e.name, x.e.vals[x.vi].label, what)
 		default:
 			errs++
 		}
